@@ -770,9 +770,6 @@ func (c *StreamIterators) compactColumn(dstIdx int, ref record.Field, needCalPre
 		col.Init()
 	}
 
-	var rowCount = 0
-	var maxRows = GetMaxRowsPerSegment4TsStore()
-
 	for itrIndex := c.iteratorStart; itrIndex < len(c.chunkItrs); itrIndex++ {
 		itr := c.chunkItrs[itrIndex]
 		if c.isClosed() {
@@ -790,8 +787,6 @@ func (c *StreamIterators) compactColumn(dstIdx int, ref record.Field, needCalPre
 		idx := fieldIndex[itrIndex]
 		if idx >= 0 {
 			srcColMeta = &srcMeta.colMeta[idx]
-		} else {
-			rowCount = srcMeta.Rows(c.ctx.preAggBuilders.timeBuilder)
 		}
 
 		// merge full segments(full segment: rows in segment EQ 1000)
@@ -831,11 +826,15 @@ func (c *StreamIterators) compactColumn(dstIdx int, ref record.Field, needCalPre
 					}
 				}
 			} else {
-				if rowCount > maxRows {
-					c.col.AppendColVal(newNilCol(maxRows, &ref), ref.Type, 0, maxRows)
-					rowCount -= maxRows
-				} else {
-					c.col.AppendColVal(newNilCol(rowCount, &ref), ref.Type, 0, rowCount)
+				// the column is absent from this chunk: one nil per row of the chunk's own time segment
+				tmSeg := &tm.entries[segIndex]
+				tmData, er := itr.readTimeData(tmSeg.offset, tmSeg.size)
+				if er != nil {
+					err = er
+					return
+				}
+				if err = c.appendNilSegment(tmData, ref, needCalPreAgg); err != nil {
+					return
 				}
 			}
 
@@ -868,6 +867,24 @@ func (c *StreamIterators) compactColumn(dstIdx int, ref record.Field, needCalPre
 	err = c.writeLastSegment(segmentN, ref, id)
 
 	return
+}
+
+// appendNilSegment pads the column with as many nil values as the time segment tmData has rows. The row count is taken
+// from the segment itself: the segments of a source chunk need not have max-rows-per-segment rows (the option may have
+// been changed since the file was written).
+func (c *StreamIterators) appendNilSegment(tmData []byte, ref record.Field, needCalPreAgg bool) error {
+	c.tmpTimeCol.Init()
+	if err := appendTimeColumnData(tmData, c.tmpTimeCol, c.ctx, false); err != nil {
+		c.log.Error("decode time column fail", zap.Error(err))
+		return err
+	}
+	rows := c.tmpTimeCol.Len
+	c.col.AppendColVal(newNilCol(rows, &ref), ref.Type, 0, rows)
+	if needCalPreAgg {
+		c.timeCol.AppendColVal(c.tmpTimeCol, influx.Field_Type_Int, 0, rows)
+	}
+	c.tmpTimeCol.Init()
+	return nil
 }
 
 func (c *StreamIterators) writeLastSegment(segmentN int, ref record.Field, id uint64) error {
